@@ -1,11 +1,14 @@
 #!/bin/bash
-# usage: try_seed.sh <patch.diff> <PROP> [tier]   — apply a seeded change to /repo, run the check, undo it
+# usage: try_seed.sh <patch.diff> <PROP> [tier]   — apply a seeded change to /repo, run the check, undo it.
+# The evidence file and replays of the property are put back afterwards (evidence must come from the unchanged tree).
 set -u
 P=$1; PROP=$2; TIER=${3:-quick}
 cd /repo || exit 2
 if ! git diff --quiet; then echo "repo dirty"; exit 2; fi
 if ! git apply --check "$P" 2>/dev/null; then echo "PATCH DOES NOT APPLY"; exit 3; fi
+cp /verif/evidence/$PROP.json /tmp/evidence_$PROP.json.bak 2>/dev/null
 git apply "$P"
 ( cd /verif && timeout 3000 ./check.py $PROP --tier $TIER 2>&1 | tail -3 )
-git checkout -- . 
+git checkout -- .
+cp /tmp/evidence_$PROP.json.bak /verif/evidence/$PROP.json 2>/dev/null; rm -f /tmp/evidence_$PROP.json.bak
 git status --short | head -3
